@@ -81,10 +81,10 @@ def genStep (st : State) (row : Row) : State :=
     match window.get sname, wsymm.get sname with
     | some w, some s =>
       { window := window, wsymm := wsymm,
-        -- wsymm[sname].periodic = window[sname].periodic = window[sname]
-        periodicAttr := setAttr (setAttr st.periodicAttr w w) s w,
+        -- wsymm[sname].periodic = window[sname].periodic = window[sname]   (targets are assigned left to right)
+        periodicAttr := setAttr (setAttr st.periodicAttr s w) w w,
         -- wsymm[sname].symm = window[sname].symm = wsymm[sname]
-        symmAttr := setAttr (setAttr st.symmAttr w s) s s }
+        symmAttr := setAttr (setAttr st.symmAttr s s) w s }
     | _, _ => { st with window := window, wsymm := wsymm }
 
 /-- the state after `_generate_window_strategies()` -/
